@@ -72,6 +72,7 @@ func extractRendered(src []byte, name string, prelude string, outDir string) (*r
 		rv.Tags["goCode"] = true // the goCode contracts apply through the renamings
 	} else {
 		rv.Tags["goCode"] = true
+		rv.Tags["global"] = true
 	}
 	var decls []ast.Decl
 	for _, d := range f.Decls {
